@@ -366,7 +366,7 @@ class CoqBatch:
     p = self.pool
     npairs = sum(len(c[2]) for c in self.sparse)
     k = int(0.5 * (len(self.ctor) / 1200.0 + len(self.dense) / 80.0 + npairs / 20000.0)) + 1
-    k = max(1, min(96, k))
+    k = max(1, min(48, k))
     def part(l, n):
       return [l[(len(l) * n) // k:(len(l) * (n + 1)) // k] for n in range(k)][n]
     all_tbls = self.tables + self.extra_tbl
@@ -756,14 +756,18 @@ def run(res):
   level = 2 if thorough else (1 if drift else 0)
   res.extra["source_digest"] = digest
   res.extra["drift_escalation"] = bool(drift and not thorough)
-  res.rule = ("public-constructor terms over variables ~a ~b ~c and values x y z: every Eq(l,r) (36 ordered pairs), "
-              "every And/Or of an argument list of length 0..2 over {TRUE,FALSE,the 15 _Eq} (depth 2; length 3 too, "
-              "sampled in quick, all in thorough), And/Or over pairs of depth<=2 terms (depth 3: sampled in quick, all "
-              "119k calls in thorough); every depth<=2 (arity<=2) term against ALL 729 restriction tables (each variable "
-              "absent or any subset of 3 values), deeper terms against sampled tables; an edge stream with names '' '~' "
-              "DEL/non-ASCII values sorting above '~'. A constructor call is non-trivial if it has >=2 arguments not all "
-              "constants (distinct by argument terms); a simplify pair is non-trivial if the result differs from the "
-              "input (distinct by term and table).")
+  res.rule = ("terms built through the public constructors over variables ~a ~b ~c and values x y z: every Eq(l,r) "
+              "(36 ordered pairs incl. var=var, value=value, l==r); every And/Or call with an argument list of length "
+              "0..2 over {TRUE, FALSE, the 15 _Eq} (depth 2) and of length 3 (800 sampled calls in quick, all 9826 in "
+              "thorough); And/Or over ordered pairs of depth<=2 terms (depth 3: 2000 sampled calls in quick, all 116k in "
+              "thorough) plus random wider/deeper calls. simplify: every depth<=2 arity<=2 term against ALL 729 "
+              "restriction tables (each variable absent or mapped to any subset of the 3 values); arity-3 terms against "
+              "all tables (40 sampled terms in quick, all in thorough); depth-3 and wider terms against 8 (quick) / "
+              "12-24 (thorough) sampled tables each. Edge stream: names '', '~', '~~', DEL and non-ASCII values that "
+              "sort above '~', tables keyed by value names. corpus/C17 runs first. A constructor call is non-trivial "
+              "if it has >=2 arguments not all constants (distinct by argument terms); a simplify pair is non-trivial "
+              "if the result differs from the input (distinct by term and table). A changed digest of the modelled "
+              "source escalates a quick run to a larger budget (never a verdict).")
   res.assumptions = [
       "Python str comparison = bytewise lexicographic order of the UTF-8 encoding (Coq String.compare); exercised "
       "by the edge stream",
@@ -887,7 +891,7 @@ def run(res):
       for ti in d2_big:
         dense(ti, "d2w")
       for ti in d3:
-        sparse(ti, "d3", 24)
+        sparse(ti, "d3", 12)
       for ti in deep_terms:
         sparse(ti, "rnd", 24)
     else:
